@@ -9,10 +9,13 @@ set -u
 NAME=$1; PID=$2; PATCH=$3; TIER=${4:-quick}
 ROOT=/tmp/rehearse-$NAME
 mkdir -p $ROOT/repo $ROOT/verif
-rsync -a --delete --exclude target --exclude .git /repo/ $ROOT/repo/
+# files restored by rsync keep their OLD mtime, which cargo's freshness check would miss: touch them
+rsync -a --delete --exclude target --exclude .git --out-format='%n' /repo/ $ROOT/repo/ | while read f; do
+  [ -f "$ROOT/repo/$f" ] && touch "$ROOT/repo/$f"; done
 rsync -a --delete --exclude harness/target --exclude work --exclude replays --exclude evidence --exclude .git /verif/ $ROOT/verif/
 if [ "$PATCH" != "-" ]; then
   (cd $ROOT/repo && patch -p1 --no-backup-if-mismatch < "$PATCH") || { echo "patch failed"; exit 3; }
+  (cd $ROOT/repo && grep '^+++ ' "$PATCH" | sed 's#^+++ [ab]/##; s#\t.*##' | while read f; do [ -f "$f" ] && touch "$f"; done)
 fi
 cd $ROOT/verif && ./check $PID $TIER
 RC=$?
